@@ -43,6 +43,7 @@ class Oracle(simcheck.BaseOracle):
         self.pts = {m["id"]: [u["pt"] for u in m["updates"]] for m in sc["markets"]}
         self.upd = {m["id"]: {u["pt"]: u for u in m["updates"]} for m in sc["markets"]}
         self.req = []       # outstanding / finished requests
+        self.script_orders = set()      # id() of the orders the script created (every other order of a trade is a replacement)
         self.created = {}   # order idx -> request time of creation
         self.n_effect = 0
         self.n_boundary = 0
@@ -50,6 +51,7 @@ class Oracle(simcheck.BaseOracle):
     def on_action(self, run, sidx, market, a, result, order):
         now = ms_of(datetime.datetime.utcnow())
         if a[0] == "create" and order is not None:
+            self.script_orders.add(id(order))
             if ms_of(order.date_time_created) != now:
                 self.add("created-time", "order %d date_time_created %s != clock %s" % (order._vidx, order.date_time_created, now))
             return
@@ -127,13 +129,20 @@ class Oracle(simcheck.BaseOracle):
                             self.add("fill-before-request", "%s: fill stamped %s precedes the request" % (who, f[0]))
                 else:
                     if r["kind"] == "replace":
-                        # the order a replace creates did not exist before the request: none of its timestamps precedes it
-                        for new in o.trade.orders[r["n_orders0"]:]:
-                            for label, stamp in (("date_time_created", new.date_time_created), ("responses.date_time_created", new.responses.date_time_created),
-                                                 ("responses.date_time_placed", new.responses._date_time_placed)):
-                                if stamp is not None and ms_of(stamp) < r["t"]:
-                                    self.add("timestamp-before-the-request", "%s: its replacement order %d has %s = %s, before the request" % (
-                                        who, getattr(new, "_vidx", -1), label, ms_of(stamp)))
+                        # the orders replaces create did not exist before their request: a replacement order is created at the time of an
+                        # accepted replace request of its trade (the package's creation time) and placed at a later update
+                        times = {q["t"] for q in self.req if q["kind"] == "replace" and q["o"].trade is o.trade}
+                        for new in o.trade.orders:
+                            if id(new) in self.script_orders or not new.status_log:
+                                continue
+                            created = ms_of(new.date_time_created)
+                            if created not in times:
+                                self.add("timestamp-before-the-request", "%s: replacement order %d of its trade has date_time_created = %s, "
+                                         "which is not the time of any replace request of the trade (%s)" % (who, getattr(new, "_vidx", -1), created, sorted(times)))
+                            placed = new.responses._date_time_placed
+                            if placed is not None and ms_of(placed) <= created:
+                                self.add("timestamp-before-the-request", "%s: replacement order %d placed at %s, not after its request at %s" % (
+                                    who, getattr(new, "_vidx", -1), ms_of(placed), created))
                     exp = {"cancel": "CANCELLING", "update": "UPDATING", "replace": "REPLACING"}[r["kind"]]
                     if st == exp and names.count(exp) == len([q for q in self.req if q["o"] is o and q["kind"] == r["kind"] and not q["done"]]) + 0 and False:
                         pass
